@@ -4,8 +4,11 @@
 (must fail), undo the patch, run the demo again (must pass).  Writes /tmp/mutout/confirm.json.
 usage: confirm_seeded.py C01 C02 ..."""
 import json, os, re, shutil, subprocess, sys
-WT = '/tmp/mutconfirm/wt'
-OUT = '/tmp/mutout'
+WT = os.environ.get('CONFIRM_WT', '/tmp/mutconfirm/wt')
+OUT = os.environ.get('MUTOUT', '/tmp/mutout')
+KS = [int(x) for x in os.environ.get('MUTKS', '1,2,3').split(',')]
+AGENT_ROOT = os.environ.get('AGENT_ROOT', '/tmp/mut')
+SKIP = set(os.environ.get('MUTSKIP', '').split(','))
 FEAT = 'derive,bit-vec,bytes,generic-array,max-encoded-len'
 
 
@@ -20,12 +23,14 @@ def main():
     if not os.path.isdir(WT):
         os.makedirs(os.path.dirname(WT), exist_ok=True)
         subprocess.check_call(['git', '-C', '/repo', 'worktree', 'add', '-q', '--detach', WT, 'HEAD'])
-    resf = os.path.join(OUT, 'confirm.json')
+    resf = os.path.join(OUT, os.environ.get('CONFIRM_JSON', 'confirm.json'))
     res = json.load(open(resf)) if os.path.exists(resf) else {}
     for pid in ids:
         d = os.path.join(OUT, pid)
-        for k in (1, 2, 3):
+        for k in KS:
             key = '%s-%d' % (pid, k)
+            if key in SKIP:
+                continue
             patch = os.path.join(d, 'patch%d.diff' % k)
             if key in res or not os.path.exists(patch):
                 continue
@@ -43,8 +48,18 @@ def main():
             with_rc = without_rc = None
             if os.path.exists(demo_rs):
                 shutil.copy(demo_rs, os.path.join(WT, 'tests', 'demo%d.rs' % k))
-                rel = ' --release' if 'release' in open(os.path.join(d, 'meta%d.json' % k)).read() else ''
-                cmd = 'cargo test --offline --features %s --test demo%d%s 2>&1 | tail -15' % (FEAT, k, rel)
+                meta_txt = open(os.path.join(d, 'meta%d.json' % k)).read()
+                rel = ' --release' if '--release' in meta_txt else ''
+                feat = '--features %s' % FEAT
+                try:
+                    dc = json.loads(meta_txt).get('demo_cmd', '')
+                except ValueError:
+                    dc = ''
+                if '--no-default-features' in dc:
+                    m2 = re.search(r'--features[ =]([A-Za-z0-9_,-]+)', dc)
+                    feat = '--no-default-features' + (' --features %s' % m2.group(1) if m2 else '')
+                inc = ' -- --include-ignored' if 'include-ignored' in dc and os.environ.get('CONFIRM_IGNORED') else ''
+                cmd = 'cargo test --offline %s --test demo%d%s%s 2>&1 | tail -15' % (feat, k, rel, inc)
                 with_rc, o1 = sh(cmd)
                 sh('git apply -R %s' % patch)
                 without_rc, o2 = sh(cmd)
@@ -52,10 +67,10 @@ def main():
             elif os.path.isdir(demo_dir):
                 # standalone project demos (C17 / C20): run.sh exits 0 iff behaviour is correct; they point at the agent's
                 # worktree path, which we redirect to ours
-                tmpd = '/tmp/mutconfirm/demo'
+                tmpd = WT + '-demo'
                 shutil.rmtree(tmpd, ignore_errors=True)
                 shutil.copytree(demo_dir, tmpd)
-                sh("grep -rl '/tmp/mut/%s' . | xargs -r sed -i 's#/tmp/mut/%s#%s#g'" % (pid, pid, WT), cwd=tmpd)
+                sh("grep -rl '%s/%s' . | xargs -r sed -i 's#%s/%s#%s#g'" % (AGENT_ROOT, pid, AGENT_ROOT, pid, WT), cwd=tmpd)
                 with_rc, o1 = sh('bash run.sh 2>&1 | tail -15', cwd=tmpd)
                 sh('git apply -R %s' % patch)
                 without_rc, o2 = sh('bash run.sh 2>&1 | tail -15', cwd=tmpd)
